@@ -102,12 +102,20 @@ Proof. unfold has_sort. destruct (s_sort sl); [auto|discriminate]. Qed.
 (* what the join rule knows about an operand it uses in place of the conformed relation `orig` *)
 Definition operand_of (env : lenv) (orig x : tree) (hidden : bool) : Prop :=
   wf_tree x ∧ env_ok env x ∧ engine_of x = engine_of orig ∧ columns orig ⊆ columns x ∧
-  sem_tree env orig = sem_proj (columns orig) (sem_tree env x) ∧ (hidden = false → columns x = columns orig).
+  sem_tree env orig = sem_proj (columns orig) (sem_tree env x) ∧ (hidden = false → columns x = columns orig) ∧
+  chains_good env x.
+
+(* a good marker, seen as (part of) a skip target *)
+Lemma good_all_chains env s : good_all env s → chains_good env s.
+Proof.
+  intros H. pose proof (good_all_sel env s H) as X. destruct s; try (destruct X; fail). exact H.
+Qed.
 
 Lemma operand_self env s : good_all env s → operand_of env s s false.
 Proof.
   intros H. destruct (good_all_wf env s H) as [W E]. unfold operand_of. repeat split; auto.
-  symmetry. apply sem_proj_id. apply sem_tree_dom; auto.
+  - symmetry. apply sem_proj_id. apply sem_tree_dom; auto.
+  - apply good_all_chains; exact H.
 Qed.
 
 Lemma strip_sound env s n hp : good_all env s → strip s = (n, hp) → operand_of env s n hp.
@@ -121,6 +129,7 @@ Proof.
   apply negb_true_iff in E1, E2, E3.
   pose proof (good_all_sel env s Hg) as Hsel.
   destruct s as [| | | | |sl skip tgt]; try (destruct Hsel; fail).
+  pose proof (proj2 (proj1 (good_all_unfold env sl skip tgt) Hg)) as Hch.
   destruct Hsel as (G1 & G2 & G3 & G4 & (W1 & W2 & W3) & G6 & G7 & G8).
   cbn [sel_slots sel_skip] in *.
   assert (Hsem : sem_tree env tgt = match s_proj sl with Some cs => sem_proj cs (sem_tree env skip) | None => sem_tree env skip end).
@@ -129,8 +138,8 @@ Proof.
   pose proof (sem_tree_dom env skip G1 G3) as Hd.
   unfold operand_of. cbn [columns sem_tree engine_of]. rewrite G6. unfold slots_cols, has_proj.
   destruct (s_proj sl) as [cs|]; (split; [exact G1|split; [exact G3|split; [symmetry; exact G7|]]]).
-  - split; [exact W2|]. split; [rewrite Hsem; reflexivity|discriminate].
-  - split; [reflexivity|]. split; [rewrite Hsem; symmetry; apply sem_proj_id; exact Hd|reflexivity].
+  - split; [exact W2|]. split; [rewrite Hsem; reflexivity|]. split; [discriminate|exact Hch].
+  - split; [reflexivity|]. split; [rewrite Hsem; symmetry; apply sem_proj_id; exact Hd|]. split; [reflexivity|exact Hch].
 Qed.
 
 Lemma rows_dom_join env p c l r :
@@ -147,8 +156,8 @@ Proof.
   intros Gl Gr Hc He H. unfold append_binary_sel_with in H.
   destruct (order_loss l); [discriminate|]. destruct (order_loss r); [discriminate|].
   destruct (good_all_wf env l Gl) as [Wl El]. destruct (good_all_wf env r Gr) as [Wr Er].
-  assert (Cl : chains_good env l) by (apply good_all_sel in Gl; destruct l; try (destruct Gl; fail); exact I).
-  assert (Cr : chains_good env r) by (apply good_all_sel in Gr; destruct r; try (destruct Gr; fail); exact I).
+  assert (Cl : chains_good env l) by (apply good_all_chains; exact Gl).
+  assert (Cr : chains_good env r) by (apply good_all_chains; exact Gr).
   assert (Hl : ∃ l', (if has_slice (sel_slots l) then select_of l else Ok l) = Ok l' ∧ good_all env l' ∧
                      sem_tree env l' = sem_tree env l ∧ columns l' = columns l ∧ engine_of l' = engine_of l).
   { destruct (has_slice (sel_slots l)).
@@ -202,7 +211,7 @@ Proof.
     - split; auto. apply bool_decide_eq_true in Eg. exact Eg.
     - split; [apply operand_self; auto|]. set_solver. }
   destruct Hr as (nr & rp & Er & Or & Hh). rewrite Er in H.
-  destruct Ol as (L1 & L2 & L3 & L4 & L5 & L6). destruct Or as (R1 & R2 & R3 & R4 & R5 & R6).
+  destruct Ol as (L1 & L2 & L3 & L4 & L5 & L6 & L7). destruct Or as (R1 & R2 & R3 & R4 & R5 & R6 & R7).
   (* Join._finish_apply: no identity operand *)
   unfold join_finish in H.
   rewrite (not_identity_of_columns nl) in H by set_solver.
@@ -218,7 +227,7 @@ Proof.
     split; [|unfold slice_ok; lia]. unfold X. destruct (lp || rp); [set_solver|exact I]. }
   destruct (apply_skip_good env (with_proj no_slots X) j s Wj Ej Hsw H) as (G & Es & Ek).
   destruct s as [| | | | |sl k tg]; try (destruct G; fail). simpl in Es, Ek. subst sl k.
-  split; [apply good_all_of_sel; [exact G|exact I]|].
+  split; [apply good_all_of_sel; [exact G|simpl; split; [exact L7|exact R7]]|].
   destruct G as (_ & _ & _ & _ & _ & Gc & Ge & Gs).
   pose proof (sem_tree_dom env j Wj Ej) as Dj. unfold j in Dj. cbn [columns sem_tree sem_bop] in Dj.
   assert (Hjoin : sem_join c p (sem_tree env l) (sem_tree env r) =
